@@ -22,7 +22,7 @@ use crypto_glue::{
 use smolset::SmolSet;
 use std::cmp::Reverse;
 use std::collections::{BTreeMap, BTreeSet};
-use std::ops::Bound::{Included, Unbounded};
+use std::ops::Bound::{Excluded, Unbounded};
 use std::sync::Arc;
 
 pub struct KeyProviderInternal {
@@ -225,11 +225,12 @@ struct InternalJweA128GCM {
 #[derive(Default, Clone)]
 struct KeyObjectInternalJweA128GCM {
     // active signing keys are in a BTreeMap indexed by their valid_from
-    // time so that we can retrieve the active key.
+    // time (and key id, as two keys may become valid in the same second) so
+    // that we can retrieve the active key.
     //
     // We don't need to worry about manipulating this at runtime, since any expiry
     // event will cause the keyObject to reload, which will reflect to this map.
-    active: BTreeMap<u64, JweA128KWEncipher>,
+    active: BTreeMap<(u64, KeyId), JweA128KWEncipher>,
 
     // All keys are stored by their KeyId for fast lookup. Only valid or retained
     // keys can be used to decrypt
@@ -241,7 +242,7 @@ impl KeyObjectInternalJweA128GCM {
         let ct_secs = time.as_secs();
 
         self.active
-            .range((Unbounded, Included(ct_secs)))
+            .range((Unbounded, Excluded((ct_secs.saturating_add(1), KeyId::from("")))))
             .next_back()
             .map(|(_time, cipher)| cipher)
     }
@@ -267,7 +268,8 @@ impl KeyObjectInternalJweA128GCM {
         let kid = cipher.get_kid().to_string();
         let kid = KeyId::from(kid);
 
-        self.active.insert(valid_from, cipher.clone());
+        self.active
+            .insert((valid_from, kid.clone()), cipher.clone());
 
         self.all.insert(
             kid,
@@ -326,7 +328,8 @@ impl KeyObjectInternalJweA128GCM {
             let valid_from = key_to_revoke.valid_from;
 
             // Remove it from the active set.
-            self.active.remove(&valid_from);
+            self.active
+                .remove(&(valid_from, KeyId::from(revoke_key_id)));
 
             Ok(true)
         } else {
@@ -355,7 +358,8 @@ impl KeyObjectInternalJweA128GCM {
                 // Ensure we have a coherent kid
                 cipher.set_kid(id.as_str());
 
-                self.active.insert(valid_from, cipher.clone());
+                self.active
+                    .insert((valid_from, id.clone()), cipher.clone());
 
                 InternalJweA128GCMStatus::Valid { cipher }
             }
@@ -457,11 +461,12 @@ struct InternalJwtEs256 {
 #[derive(Default, Clone)]
 struct KeyObjectInternalJwtEs256 {
     // active signing keys are in a BTreeMap indexed by their valid_from
-    // time so that we can retrieve the active key.
+    // time (and key id, as two keys may become valid in the same second) so
+    // that we can retrieve the active key.
     //
     // We don't need to worry about manipulating this at runtime, since any expiry
     // event will cause the keyObject to reload, which will reflect to this map.
-    active: BTreeMap<u64, JwsEs256Signer>,
+    active: BTreeMap<(u64, KeyId), JwsEs256Signer>,
 
     // All keys are stored by their KeyId for fast lookup. Keys internally have a
     // current status which is checked for signature validation.
@@ -473,7 +478,7 @@ impl KeyObjectInternalJwtEs256 {
         let ct_secs = time.as_secs();
 
         self.active
-            .range((Unbounded, Included(ct_secs)))
+            .range((Unbounded, Excluded((ct_secs.saturating_add(1), KeyId::from("")))))
             .next_back()
             .map(|(_time, signer)| signer)
     }
@@ -518,7 +523,8 @@ impl KeyObjectInternalJwtEs256 {
             // Indicate to the signer we wish to use the legacy kid for this signer.
             signer.set_kid(kid.as_str());
 
-            self.active.insert(valid_from, signer.clone());
+            self.active
+                .insert((valid_from, kid.clone()), signer.clone());
 
             self.all.insert(
                 kid,
@@ -558,10 +564,11 @@ impl KeyObjectInternalJwtEs256 {
             OperationError::KP0009KeyObjectPrivateToDer
         })?;
 
-        self.active.insert(valid_from, signer.clone());
-
         let kid = signer.get_kid().to_string();
         let kid = KeyId::from(kid);
+
+        self.active
+            .insert((valid_from, kid.clone()), signer.clone());
 
         self.all.insert(
             kid,
@@ -606,7 +613,8 @@ impl KeyObjectInternalJwtEs256 {
             let valid_from = key_to_revoke.valid_from;
 
             // Remove it from the active set.
-            self.active.remove(&valid_from);
+            self.active
+                .remove(&(valid_from, KeyId::from(revoke_key_id)));
 
             Ok(true)
         } else {
@@ -638,7 +646,7 @@ impl KeyObjectInternalJwtEs256 {
                     OperationError::KP0014KeyObjectSignerToVerifier
                 })?;
 
-                self.active.insert(valid_from, signer);
+                self.active.insert((valid_from, id.clone()), signer);
 
                 InternalJwtEs256Status::Valid {
                     // signer,
@@ -847,11 +855,12 @@ struct InternalJwtRs256 {
 #[derive(Default, Clone)]
 struct KeyObjectInternalJwtRs256 {
     // active signing keys are in a BTreeMap indexed by their valid_from
-    // time so that we can retrieve the active key.
+    // time (and key id, as two keys may become valid in the same second) so
+    // that we can retrieve the active key.
     //
     // We don't need to worry about manipulating this at runtime, since any expiry
     // event will cause the keyObject to reload, which will reflect to this map.
-    active: BTreeMap<u64, JwsRs256Signer>,
+    active: BTreeMap<(u64, KeyId), JwsRs256Signer>,
 
     // All keys are stored by their KeyId for fast lookup. Keys internally have a
     // current status which is checked for signature validation.
@@ -863,7 +872,7 @@ impl KeyObjectInternalJwtRs256 {
         let ct_secs = time.as_secs();
 
         self.active
-            .range((Unbounded, Included(ct_secs)))
+            .range((Unbounded, Excluded((ct_secs.saturating_add(1), KeyId::from("")))))
             .next_back()
             .map(|(_time, signer)| signer)
     }
@@ -908,7 +917,8 @@ impl KeyObjectInternalJwtRs256 {
             // Indicate to the signer we wish to use the legacy kid for this signer.
             signer.set_kid(kid.as_str());
 
-            self.active.insert(valid_from, signer.clone());
+            self.active
+                .insert((valid_from, kid.clone()), signer.clone());
 
             self.all.insert(
                 kid,
@@ -948,10 +958,11 @@ impl KeyObjectInternalJwtRs256 {
             OperationError::KP0050KeyObjectPrivateToDer
         })?;
 
-        self.active.insert(valid_from, signer.clone());
-
         let kid = signer.get_kid().to_string();
         let kid = KeyId::from(kid);
+
+        self.active
+            .insert((valid_from, kid.clone()), signer.clone());
 
         self.all.insert(
             kid,
@@ -996,7 +1007,8 @@ impl KeyObjectInternalJwtRs256 {
             let valid_from = key_to_revoke.valid_from;
 
             // Remove it from the active set.
-            self.active.remove(&valid_from);
+            self.active
+                .remove(&(valid_from, KeyId::from(revoke_key_id)));
 
             Ok(true)
         } else {
@@ -1028,7 +1040,7 @@ impl KeyObjectInternalJwtRs256 {
                     OperationError::KP0053KeyObjectSignerToVerifier
                 })?;
 
-                self.active.insert(valid_from, signer);
+                self.active.insert((valid_from, id.clone()), signer);
 
                 InternalJwtRs256Status::Valid {
                     // signer,
@@ -1631,11 +1643,12 @@ struct InternalJwtHs256 {
 #[derive(Default, Clone)]
 struct KeyObjectInternalJwtHs256 {
     // active signing keys are in a BTreeMap indexed by their valid_from
-    // time so that we can retrieve the active key.
+    // time (and key id, as two keys may become valid in the same second) so
+    // that we can retrieve the active key.
     //
     // We don't need to worry about manipulating this at runtime, since any expiry
     // event will cause the keyObject to reload, which will reflect to this map.
-    active: BTreeMap<u64, JwsHs256Signer>,
+    active: BTreeMap<(u64, KeyId), JwsHs256Signer>,
 
     // All keys are stored by their KeyId for fast lookup. Keys internally have a
     // current status which is checked for signature validation.
@@ -1649,7 +1662,7 @@ impl KeyObjectInternalJwtHs256 {
         let ct_secs = time.as_secs();
 
         self.active
-            .range((Unbounded, Included(ct_secs)))
+            .range((Unbounded, Excluded((ct_secs.saturating_add(1), KeyId::from("")))))
             .next_back()
             .map(|(_time, signer)| signer)
     }
@@ -1687,7 +1700,8 @@ impl KeyObjectInternalJwtHs256 {
             // Indicate to the signer we wish to use the legacy kid for this signer.
             signer.set_kid(kid.as_str());
 
-            self.active.insert(valid_from, signer.clone());
+            self.active
+                .insert((valid_from, kid.clone()), signer.clone());
 
             self.all.insert(
                 kid,
@@ -1713,11 +1727,12 @@ impl KeyObjectInternalJwtHs256 {
 
         let verifier = signer.clone();
 
-        self.active.insert(valid_from, signer.clone());
-
         // Needed to disambiguate the various traits.
         let kid = JwsVerifier::get_kid(&signer).to_string();
         let kid = KeyId::from(kid);
+
+        self.active
+            .insert((valid_from, kid.clone()), signer.clone());
 
         self.all.insert(
             kid,
@@ -1743,7 +1758,8 @@ impl KeyObjectInternalJwtHs256 {
             let valid_from = key_to_revoke.valid_from;
 
             // Remove it from the active set.
-            self.active.remove(&valid_from);
+            self.active
+                .remove(&(valid_from, KeyId::from(revoke_key_id)));
 
             Ok(true)
         } else {
@@ -1772,7 +1788,7 @@ impl KeyObjectInternalJwtHs256 {
 
                 let verifier = signer.clone();
 
-                self.active.insert(valid_from, signer);
+                self.active.insert((valid_from, id.clone()), signer);
 
                 InternalJwtHs256Status::Valid { verifier }
             }
@@ -1922,11 +1938,12 @@ struct InternalHkdfS256 {
 #[derive(Default, Clone)]
 struct KeyObjectInternalHkdfS256 {
     // active signing keys are in a BTreeMap indexed by their valid_from
-    // time so that we can retrieve the active key.
+    // time (and key id, as two keys may become valid in the same second) so
+    // that we can retrieve the active key.
     //
     // We don't need to worry about manipulating this at runtime, since any expiry
     // event will cause the keyObject to reload, which will reflect to this map.
-    active: BTreeMap<u64, HmacSha256Key>,
+    active: BTreeMap<(u64, KeyId), HmacSha256Key>,
 
     // All keys are stored by their KeyId for fast lookup. Keys internally have a
     // current status which is checked for signature validation.
@@ -1940,7 +1957,7 @@ impl KeyObjectInternalHkdfS256 {
         let ct_secs = time.as_secs();
 
         self.active
-            .range((Unbounded, Included(ct_secs)))
+            .range((Unbounded, Excluded((ct_secs.saturating_add(1), KeyId::from("")))))
             .next_back()
             .map(|(_time, signer)| signer)
     }
@@ -1962,8 +1979,6 @@ impl KeyObjectInternalHkdfS256 {
         let signer = hmac_s256::new_key();
         let verifier = signer.clone();
 
-        self.active.insert(valid_from, signer.clone());
-
         // Needed to disambiguate the various traits.
         // let kid = JwsVerifier::get_kid(&signer).to_string();
 
@@ -1972,6 +1987,9 @@ impl KeyObjectInternalHkdfS256 {
         let hashout = hmac.finalize();
         let kid = hex::encode(hashout.into_bytes());
         let kid = KeyId::from(kid);
+
+        self.active
+            .insert((valid_from, kid.clone()), signer.clone());
 
         self.all.insert(
             kid,
@@ -1997,7 +2015,8 @@ impl KeyObjectInternalHkdfS256 {
             let valid_from = key_to_revoke.valid_from;
 
             // Remove it from the active set.
-            self.active.remove(&valid_from);
+            self.active
+                .remove(&(valid_from, KeyId::from(revoke_key_id)));
 
             Ok(true)
         } else {
@@ -2023,7 +2042,7 @@ impl KeyObjectInternalHkdfS256 {
 
                 let verifier = signer.clone();
 
-                self.active.insert(valid_from, signer);
+                self.active.insert((valid_from, id.clone()), signer);
 
                 InternalHkdfS256Status::Valid { verifier }
             }
